@@ -262,7 +262,26 @@ fn scenario(cx: &mut Ctx, rng: &mut Rng) {
             let a = cx.fresh();
             let (b1, b2) = (BBox::new_in(Tok::new(x), cx.bump), BBox::new_in(Tok::new(a), cx.bump));
             let (s1, s2) = (Box::new(Tok::new(x)), Box::new(Tok::new(a)));
-            let same = (b1 == b2) == (s1 == s2) && (b1 < b2) == (s1 < s2) && b1.cmp(&b2) == s1.cmp(&s2) && b1.partial_cmp(&b2) == s1.partial_cmp(&s2) && hash_of(&b1) == hash_of(&s1);
+            let mut same = (b1 == b2) == (s1 == s2) && (b1 != b2) == (s1 != s2) && (b1 < b2) == (s1 < s2) && (b1 <= b2) == (s1 <= s2)
+                && (b1 > b2) == (s1 > s2) && (b1 >= b2) == (s1 >= s2) && b1.cmp(&b2) == s1.cmp(&s2) && b1.partial_cmp(&b2) == s1.partial_cmp(&s2)
+                && hash_of(&b1) == hash_of(&s1);
+            // payloads that are only partially ordered (NaN inside): every operator must forward to T's own
+            let fs = [0.0f64, 1.0, -1.0, f64::NAN, f64::INFINITY];
+            let (f1, f2) = (fs[(x % 5) as usize], fs[(a % 5) as usize]);
+            {
+                let (p1, p2) = (BBox::new_in(f1, cx.bump), BBox::new_in(f2, cx.bump));
+                let (q1, q2) = (Box::new(f1), Box::new(f2));
+                same = same && (p1 == p2) == (q1 == q2) && (p1 != p2) == (q1 != q2) && (p1 < p2) == (q1 < q2) && (p1 <= p2) == (q1 <= q2)
+                    && (p1 > p2) == (q1 > q2) && (p1 >= p2) == (q1 >= q2) && p1.partial_cmp(&p2) == q1.partial_cmp(&q2);
+                let (o1, o2) = (BBox::new_in([Some(f1), None], cx.bump), BBox::new_in([Some(f2), Some(f1)], cx.bump));
+                let (r1, r2) = (Box::new([Some(f1), None]), Box::new([Some(f2), Some(f1)]));
+                same = same && (o1 == o2) == (r1 == r2) && (o1 < o2) == (r1 < r2) && (o1 <= o2) == (r1 <= r2)
+                    && (o1 > o2) == (r1 > r2) && (o1 >= o2) == (r1 >= r2) && o1.partial_cmp(&o2) == r1.partial_cmp(&r2);
+                let (t1, t2): (BBox<str>, BBox<str>) = unsafe { (BBox::from_raw(cx.bump.alloc_str(if x % 2 == 0 { "ab" } else { "b" }) as *mut str), BBox::from_raw(cx.bump.alloc_str(if a % 3 == 0 { "ab" } else { "a" }) as *mut str)) };
+                let (u1, u2): (Box<str>, Box<str>) = ((if x % 2 == 0 { "ab" } else { "b" }).into(), (if a % 3 == 0 { "ab" } else { "a" }).into());
+                same = same && (t1 == t2) == (u1 == u2) && (t1 <= t2) == (u1 <= u2) && (t1 >= t2) == (u1 >= u2) && t1.cmp(&t2) == u1.cmp(&u2)
+                    && format!("{}|{:?}", &*t1, &*t1) == format!("{}|{:?}", &*u1, &*u1) && format!("{}", t1) == format!("{}", u1) && format!("{:?}", t1) == format!("{:?}", u1);
+            }
             let it: BBox<std::ops::Range<u32>> = BBox::new_in(0..5u32, cx.bump);
             let its: Box<std::ops::Range<u32>> = Box::new(0..5u32);
             let same_it = it.collect::<Vec<_>>() == its.collect::<Vec<_>>();
